@@ -679,8 +679,11 @@ func judgeSeqRun(c *seqChecks, s *seqScenario, td *tdir, files map[string]*ufile
 				}
 				// classes
 				for _, pd := range agg {
-					if !s.Cfg.ProgramApproved(pd.Program, pd.Version, pd.GoVersion) {
+					if !s.Cfg.BuildApproved(pd.Program, pd.Version, pd.GoVersion, pd.GOOS, pd.GOARCH) {
 						c.c01.Hit("unlisted-version")
+						if s.Cfg.ProgramApproved(pd.Program, pd.Version, pd.GoVersion) {
+							c.c01.Hit("unlisted-goos-goarch")
+						}
 						continue
 					}
 					for n := range pd.Counters {
